@@ -168,7 +168,7 @@ def restStages (cfg : Cfg) (ord : List Path) (rs skc : Bool) : List Stage :=
          else [cleanupLocks fixed cfg, globStage isSaveAux ord, globStage isRgAux ord])))))
 
 theorem stages_eq (cfg : Cfg) (ord : List Path) (rs sk : Bool) :
-    stages fixed cfg ord rs sk = paramsStage rs :: refStage fixed cfg rs :: restStages cfg ord rs (sk || cfg.fromSaves) := by
+    stages fixed cfg ord rs sk = paramsStage fixed rs :: refStage fixed cfg rs :: restStages cfg ord rs (sk || cfg.fromSaves) := by
   simp [stages, restStages, fixed, unalOK]
 
 /-- the paths of the reference stage: the unpacked copy, the index (file and content), the temporary index -/
